@@ -27,6 +27,7 @@ type Env struct {
 	freshBase   string
 	wt          func(v Val)
 	localsFirst bool
+	reached     func(name string) (string, bool)
 }
 
 type memUse struct {
@@ -542,7 +543,11 @@ func (env *Env) elabBinary(x *EBinary) Val {
 	boolT := types.Typ[types.Bool]
 	switch x.Op {
 	case "&&", "||", "==>", "<==>":
-		a, b := env.elab(x.X), env.elab(x.Y)
+		a := env.elab(x.X)
+		if x.Op == "==>" && a.S == "false" {
+			return Val{T: boolT, S: "true"} // the consequent is not even elaborated
+		}
+		b := env.elab(x.Y)
 		if a.T == nil || b.T == nil || !isBool(a.T) || !isBool(b.T) {
 			fail("logical operator %s on non-bool in %s", x.Op, exprString(x))
 		}
@@ -784,6 +789,17 @@ func (env *Env) elabCall(x *ECall) Val {
 			return Val{T: types.Typ[types.Bool], S: fmt.Sprintf("(>= (rootof %s) %s)", a.S, env.freshBase)}
 		}
 		fail("fresh() needs a slice or pointer")
+	case name == "reached":
+		// reached($x): the instruction that produced the named value lies on the current path
+		id, ok := x.Args[0].(*EIdent)
+		if !ok || env.reached == nil {
+			fail("reached() needs a $name and a program point")
+		}
+		pc, ok := env.reached(id.Name)
+		if !ok {
+			fail("unknown identifier %s", id.Name)
+		}
+		return Val{T: types.Typ[types.Bool], S: pc}
 	case name == "sameobject":
 		// sameobject(a, b): the pointers / slices / interface-held pointers lie in the same allocated object
 		root := func(x Expr) string {
